@@ -1,5 +1,3 @@
-use std::cmp::Ordering;
-
 use pyo3::{
     prelude::*,
     types::{PyDate, PyDateAccess, PyDateTime, PyDelta, PyDeltaAccess, PyString, PyTimeAccess},
@@ -333,26 +331,19 @@ pub fn precise_diff<'py>(
         let days_in_month =
             DAYS_PER_MONTHS[usize::from(helpers::is_leap(dtinfo2.year))][dtinfo2.month as usize];
 
-        match day_diff.cmp(&(days_in_month - days_in_last_month)) {
-            Ordering::Less => {
-                // We don't have a full month, we calculate days
-                if days_in_last_month < dtinfo1.day {
-                    day_diff += dtinfo1.day;
-                } else {
-                    day_diff += days_in_last_month;
-                }
-            }
-            Ordering::Equal => {
-                // We have exactly a full month
-                // We remove the days difference
-                // and add one to the months difference
-                day_diff = 0;
-                month_diff += 1;
-            }
-            Ordering::Greater => {
-                // We have a full month
-                day_diff += days_in_last_month;
-            }
+        if dtinfo1.day > days_in_month && day_diff == days_in_month - dtinfo1.day {
+            // The start day does not exist in the end month
+            // and the end is the last day it is clamped to:
+            // we have exactly a full month
+            // We remove the days difference
+            // and add one to the months difference
+            day_diff = 0;
+            month_diff += 1;
+        } else if days_in_last_month < dtinfo1.day {
+            // We don't have a full month, we calculate days
+            day_diff += dtinfo1.day;
+        } else {
+            day_diff += days_in_last_month;
         }
 
         month_diff -= 1;
